@@ -1085,6 +1085,15 @@ func (w *World) apply(i int, op Op) bool {
 			}
 		}
 		closed := map[string]bool{}
+		// everybody reads and lists while the files are still open (nothing of them is stored yet: a file
+		// takes effect when its Close returns) - and again after the step, when all of them are
+		readBackOpen := func() bool {
+			if op.Len%3 == 0 {
+				return true
+			}
+			w.Stats["read-back-while-files-open"]++
+			return w.ReadBack(what + ": read-back while the files are open")
+		}
 		defer func() {
 			// after a failure: close whatever is still open, first-opened first, so that the database
 			// itself can be closed (its pool waits for running jobs)
@@ -1103,10 +1112,16 @@ func (w *World) apply(i int, op Op) bool {
 			case <-time.After(10 * time.Second):
 			}
 		}()
+		if !readBackOpen() {
+			return false
+		}
 		for j := range fs {
 			of := fs[j]
 			if op.Len%2 == 0 {
 				of = fs[len(fs)-1-j]
+			}
+			if j == 1 && op.Len%3 == 1 && !w.ReadBack(what+": read-back after the first of the files was closed") {
+				return false
 			}
 			closed[of.key] = true
 			done := make(chan error, 1)
